@@ -37,6 +37,25 @@ const ERR_KINDS: [io::ErrorKind; 17] = [
     io::ErrorKind::ConnectionRefused,
 ];
 
+/// usize::MAX: every injection site picks its own kind; otherwise the (kind, payload) pair that all sites use
+pub static KIND_OVERRIDE: std::sync::atomic::AtomicUsize = std::sync::atomic::AtomicUsize::new(usize::MAX);
+
+/// The hard errors injected into streams and ports: every kind, and - because an `io::Error` can carry any error as its
+/// payload - with payloads that are themselves the library's own error type, another I/O error, or nothing at all.
+/// Whatever the payload, a failed read or write is an I/O failure.
+pub fn hard_error(kind: usize, what: &str) -> io::Error {
+    let forced = KIND_OVERRIDE.load(std::sync::atomic::Ordering::Relaxed);
+    let kind = if forced == usize::MAX { kind } else { forced };
+    let k = ERR_KINDS[kind % ERR_KINDS.len()];
+    match (kind / ERR_KINDS.len()) % 5 {
+        0 => io::Error::new(k, what.to_string()),
+        1 => io::Error::new(k, Frame::from_bytes(b"line noise").unwrap_err()),
+        2 => io::Error::new(k, io::Error::new(io::ErrorKind::Interrupted, "inner")),
+        3 => io::Error::from(k),
+        _ => io::Error::new(k, FrameError::from(io::Error::new(io::ErrorKind::Interrupted, "inner, wrapped by the library's type"))),
+    }
+}
+
 /// A byte source that follows a schedule: at most `frag` bytes per call, `Interrupted` at the calls in `intr`,
 /// a hard error at call `err`.  It hands out as many bytes as the caller asks for (up to `frag`).
 pub struct SchedReader {
@@ -73,7 +92,7 @@ impl Read for SchedReader {
         self.calls += 1;
         if self.err == Some(i) {
             self.log.push(json!({"e": "read", "req": buf.len(), "ret": -2, "times": 1}));
-            return Err(io::Error::new(ERR_KINDS[self.kind % ERR_KINDS.len()], "scheduled hard error"));
+            return Err(hard_error(self.kind, "scheduled hard error"));
         }
         if self.intr.contains(&i) {
             self.push_intr(buf.len());
@@ -127,7 +146,7 @@ impl Write for SchedWriter {
         let offered = j::bytes(buf);
         if self.err == Some(i) {
             self.log.push(json!({"e": "write", "offered": offered, "ret": -2}));
-            return Err(io::Error::new(ERR_KINDS[self.kind % ERR_KINDS.len()], "scheduled hard error"));
+            return Err(hard_error(self.kind, "scheduled hard error"));
         }
         if self.intr.contains(&i) {
             self.log.push(json!({"e": "write", "offered": offered, "ret": -1}));
@@ -263,6 +282,26 @@ pub fn record_c15(a: &Args) -> usize {
                 n += run_reads(&mut out, src, frag, if e % 3 == 0 { vec![e / 2] } else { vec![] }, Some(e), 8);
             }
         }
+    }
+    // every (kind, payload) pair of hard error at the first, a middle and the last call of a read and of a write
+    {
+        let src = &streams[0];
+        let fr = Frame::new(Address(0x1234), MsgType(2), Data::try_new(vec![1, 2, 3, 4, 5]).unwrap());
+        for forced in 0..(5 * ERR_KINDS.len()) {
+            KIND_OVERRIDE.store(forced, std::sync::atomic::Ordering::Relaxed);
+            out.balance();
+            for (frag, e) in [(1usize, 0usize), (1, 7), (3, 2), (usize::MAX, 0), (usize::MAX, 1)] {
+                if thorough || (forced + e) % 2 == 0 || forced / ERR_KINDS.len() == 1 {
+                    n += run_reads(&mut out, src, frag, vec![], Some(e), 8);
+                }
+            }
+            for (limit, e) in [(usize::MAX, 0usize), (4, 0), (4, 2), (1, 11)] {
+                if thorough || (forced + e) % 2 == 0 || forced / ERR_KINDS.len() == 1 {
+                    n += run_write(&mut out, &fr, limit, vec![], None, Some(e));
+                }
+            }
+        }
+        KIND_OVERRIDE.store(usize::MAX, std::sync::atomic::Ordering::Relaxed);
     }
     // a frame of every data length 0..=255, each followed by another frame and a trailing byte (fragment limits rotate)
     for len in 0..=255usize {
@@ -466,7 +505,7 @@ impl PortState {
     }
     fn io_error(&mut self, what: &str) -> io::Error {
         self.io_kind += 1;
-        io::Error::new(ERR_KINDS[(self.io_kind - 1) % ERR_KINDS.len()], what)
+        hard_error(self.io_kind - 1, what)
     }
 }
 
